@@ -94,6 +94,7 @@ def jobs(tier, seed):
         "outline-empty-examples": ([F([O(1, [(2, []), (0, [])]), S(1)])], {"out_dom": D}),
         "same-names": ([F([S(1, name="Happy path"), R([S(1, name="Happy path"), S(1)]), R([O(1, [(1, [])], name="Happy path")]),
                            R([O(1, [(1, [])], name="Happy path")])])], {"out_dom": {"*": [0, 1]}}),
+        "hookfault-skip": ([F([S(1, tags=["t1"]), S(1)])], {"hooks": True, "fault": True, "hook_skip_scenario": True, "out_dom": {"*": [0, 1]}, "undef": False}),
         "hookfault": ([F([S(1, tags=["t1"]), R([S(1)], tags=["tr"])], tags=["t0"])], {"hooks": True, "fault": True, "out_dom": {"*": [0, 1]}}),
     }
     if tier == "thorough":
